@@ -17,6 +17,11 @@ CHECKS = {
    text="TLC checks the polynomial identities (Horner = Bernstein = de Casteljau, end points, basis change round trip, derivative = derivative of the polynomial, reversal) on unisolvent grids (all vectors over {-3,0,1,4} for degree <= 3 x 7..13 parameter values); the same cases, paired into complex control points, go through point, points, poly, derivative(n=1..4), poly2bez, bpoints2bezier, bez2poly of the real classes: bit-for-bit equality for integer control points and t = k/8 (incl. t outside [0,1], scaled by 2^-10 and 2^20), 1e-12 relative for t = k/3 and decimal scales 1e-3/1e6.",
    note="Trusted: TLC, the interpolation argument, and that each evaluated method is straight-line arithmetic branching only on degree/flags (checked from the AST at run time and reported in the evidence). Floating-point rounding itself is absorbed by the tolerance, not modelled.",
    ref="4 (C03), 3.6"),
+ 'C04': dict(
+   technique="TLA+ angle-lattice model of elliptical arcs in centre parameterisation (ArcLattice.tla) model-checked with TLC; every lattice arc converted to constructor arguments and walked through the real Arc in 15-degree steps",
+   text="TLC checks that the flag pair selects exactly one of the four arcs through two end points (F65Unique), LargeIffOver180, the walk properties CurInSweep / MonotoneDir / EndsAtEnd, ReverseOK, CropOK, MirrorFlipsSweep and the exact minimal enlargement (SmallOK) over 3-5 radius pairs x 9 rotations (incl. -90, 390 degrees) x 24 start angles x 15-46 sweeps; each arc is built through the end-point constructor and the derived centre, radii, theta, delta, every walk point, membership of the stored ellipse, the monotone eccentric angle, derivative(t,n) n=1..6, the end points of as_cubic_curves/as_quad_curves, negative-signed radii and the too-small-radius family (incl. autoscale_radius=False refusing) are compared with the lattice values.",
+   note="Trusted: TLC; math.cos/sin in the concretisation (which is F.6.4 itself). Tolerances: theta/delta 1e-5 degree, centre 1e-7, points 1e-6 relative (acos near +-1). Angles off the 15-degree lattice are not separately decided.",
+   ref="4 (C04), 3.8"),
  'C05': dict(
    technique="TLA+ lattice model of T <-> (k,t) <-> arc-length fractions and of continuous subpaths (TParam) model-checked with TLC; every (lengths, joints, T) case replayed on real Paths",
    text="TLC checks RoundTripT, InOccupancy, TZeroOnlyAtStart, Monotone (walking T along the grid), RunsOK and ContIffOneRun for all paths of <= 3 (quick) / 4 (thorough) segments with lengths from a set containing 0 and 64; every case is realised as a real Path (uniform-speed Line/Quadratic/Cubic chains; mixed L/Q/C/A geometry for every joint pattern incl. the closing joint) and T2t, t2T, point, start/end, iscontinuous, isclosed, continuous_subpaths are compared with the model - exactly when all lengths are powers of two.",
